@@ -3,6 +3,7 @@ import Ptn.C12.Lemmas
 import Ptn.C12.Reduced
 import Ptn.C12.Rank
 import Ptn.C12.RankBridge
+import Ptn.C12.NumMain
 import Mathlib.LinearAlgebra.Matrix.Rank
 import Ptn.C01.Cut
 import Ptn.C01.Fill
@@ -203,6 +204,79 @@ theorem sge_numeric_bond_eq_rank_partial (M : Ptn.C13.EMat) (n : Nat) (hpos : 0 
   have hle := rank_numMat_le M n hpos hrect hnum L A R h
   exact ⟨g, Mt, cu, cv, hg, hmvc, hsz, by omega, by omega, fun hge => by omega⟩
 
+/-- **The reduced matrix of a numeric `Γ` is fully reduced - partial.**  For every numeric rectangular
+    `Γ` (any size): if the matrix `M'` returned by the model of `gaussian_elimination` has no zero row
+    and no zero column, then it is square, its non-zero entries are exactly the diagonal ones, and in
+    particular it has exactly one non-zero entry in every row and in every column.
+    Proof: the fixed-point loop ends after a pass that deleted nothing (`mainLoop_last_pass`); in such a
+    pass `row_elimination` leaves every column `c < min(m, n)` as a unit column with diagonal pivot or
+    zero on and below the diagonal (`rowElimLoop_nodel`), `column_elimination` then meets a non-zero
+    diagonal pivot in every row (a column that is zero on and below the diagonal next to unit rows
+    above would be a zero column, and zero columns survive to the end: `colElimLoop_zeroCol`) and only
+    clears the rest of the pivot's row (`colElimLoop_nodel`).
+    Missing for the full statement `sge_numeric_fully_reduced`: that `M'` has no zero row / column
+    whenever `Γ` has none (observed in every sampled case, not proved; it is false that `M'` is fully
+    reduced for every `Γ`: `sge_numeric_not_fully_reduced`). -/
+theorem sge_numeric_fully_reduced_partial (M : Ptn.C13.EMat) (n : Nat) (hpos : 0 < M.length)
+    (hrect : Ptn.C13.Rect M n) (hnum : NumM M) (L : Ptn.C13.RMat) (A : Ptn.C13.EMat) (R : Ptn.C13.RMat)
+    (h : Ptn.C13.gaussianElimination M = .ok L A R)
+    (hrows : ∀ r, r < A.length → ∃ c, nz A r c = true)
+    (hcols : ∀ c, c < R.length → ∃ r, nz A r c = true) :
+    A.length = R.length ∧ (∀ i j, nz A i j = true ↔ (i = j ∧ i < A.length)) ∧ FullyReduced A := by
+  have hnumA : NumM A := Ptn.C13.sge_no_new_symbols M (fun _ => False) hnum L A R h
+  unfold Ptn.C13.gaussianElimination at h
+  simp only at h
+  split at h
+  · rename_i hflag
+    simp only [Ptn.C13.Outcome.ok.injEq] at h
+    obtain ⟨_, hA, hR⟩ := h
+    have hg := gaussSt_passGoal M n hpos hrect hnum hflag
+    rw [← hA] at hnumA
+    have hd : DiagNZ (Ptn.C13.gaussSt M) := by
+      apply hg
+      · rintro ⟨c, hc, hz⟩
+        obtain ⟨r, hr⟩ := hcols c (hR ▸ hc)
+        rw [← hA, nz_iff_val hnumA] at hr
+        exact hr (hz r)
+      · rintro ⟨r, hr, hz⟩
+        obtain ⟨c, hc⟩ := hrows r (hA ▸ hr)
+        rw [← hA, nz_iff_val hnumA] at hc
+        exact hc (hz c)
+    have hnzd := diagNZ_nz hnumA hd
+    subst hA hR
+    refine ⟨hd.1, hnzd, ?_, ?_⟩
+    · intro i j j' h1 h2
+      have a := ((hnzd i j).1 h1).1
+      have b := ((hnzd i j').1 h2).1
+      omega
+    · intro i i' j h1 h2
+      have a := ((hnzd i j).1 h1).1
+      have b := ((hnzd i' j).1 h2).1
+      omega
+  · simp at h
+  · simp at h
+
+/-- **Bond of a numeric cut whose reduced matrix has no zero row / column - partial.**  Then the
+    model of `minimum_vertex_cover` on the support graph of `M'` returns a cover with exactly
+    `len(M') = len(M'[0]) = rank M'` vertices, and `rank Γ ≤` that number (equality needs
+    `rank M' ≤ rank Γ`, not proved - see `sge_numeric_bond_eq_rank_partial`). -/
+theorem sge_numeric_bond_no_zero_lines_partial (M : Ptn.C13.EMat) (n : Nat) (hpos : 0 < M.length)
+    (hrect : Ptn.C13.Rect M n) (hnum : NumM M) (L : Ptn.C13.RMat) (A : Ptn.C13.EMat) (R : Ptn.C13.RMat)
+    (h : Ptn.C13.gaussianElimination M = .ok L A R)
+    (hrows : ∀ r, r < A.length → ∃ c, nz A r c = true)
+    (hcols : ∀ c, c < R.length → ∃ r, nz A r c = true) :
+    ∃ g Mt cu cv, Ptn.C14.mkGraph A.length R.length (suppEdges A) = some g ∧
+      Ptn.C14.minimumVertexCover g = .ok (Mt, cu, cv) ∧
+      cu.length + cv.length = (numMat A A.length R.length).rank ∧
+      (numMat M M.length n).rank ≤ cu.length + cv.length ∧
+      ((numMat A A.length R.length).rank ≤ (numMat M M.length n).rank →
+        cu.length + cv.length = (numMat M M.length n).rank) := by
+  obtain ⟨hsq, _, hfr⟩ := sge_numeric_fully_reduced_partial M n hpos hrect hnum L A R h hrows hcols
+  obtain ⟨_, ⟨hApos, _, _⟩, _⟩ := Ptn.C13.sge_exact M n hpos hrect (numM_nesm hnum) L A R h
+  obtain ⟨g, Mt, cu, cv, h1, h2, _, h4, h5, h6⟩ :=
+    sge_numeric_bond_eq_rank_partial M n hpos hrect hnum L A R h (by omega) hfr
+  exact ⟨g, Mt, cu, cv, h1, h2, h4, h5, h6⟩
+
 /-- **The reduced matrix of a numeric `Γ` is not always fully reduced**: `Γ` (3 × 4, rank 2, two zero
     columns) is returned with two non-zero entries in column 0 - the pivot search only looks at the
     diagonal position and below / to the right of it, and the fixed-point loop stops because no row or
@@ -270,6 +344,16 @@ example : FullyReduced [[.num 1, .num 0], [.num 0, .num 1]] ∧
         nz [[.num 1, .num 0], [.num 0, .num 1]] i j = true →
         nz [[.num 1, .num 0], [.num 0, .num 1]] i' j = true → i = i' := by decide +kernel
     exact key i b1.1 i' b2.1 j b1.2 h1 h2
+
+-- `sge_numeric_fully_reduced_partial`, `sge_numeric_bond_no_zero_lines_partial`: the reduced matrix of
+-- `exRank2` (above) has no zero row and no zero column
+example : (∀ r, r < 2 → ∃ c, nz [[.num 1, .num 0], [.num 0, .num 1]] r c = true) ∧
+    (∀ c, c < 2 → ∃ r, nz [[.num 1, .num 0], [.num 0, .num 1]] r c = true) := by
+  refine ⟨fun r hr => ⟨r, ?_⟩, fun c hc => ⟨c, ?_⟩⟩
+  · have : ∀ r < 2, nz [[.num 1, .num 0], [.num 0, .num 1]] r r = true := by decide +kernel
+    exact this r hr
+  · have : ∀ c < 2, nz [[.num 1, .num 0], [.num 0, .num 1]] c c = true := by decide +kernel
+    exact this c hc
 
 -- `rank_of_fully_reduced`: a 2 × 3 partial permutation pattern
 example : MFullyReduced (Matrix.of ![![(0 : ℚ), 2, 0], ![0, 0, 5]]) := by
